@@ -1,7 +1,7 @@
 (* C05 -- Every reported position points at the text it is about.
    Statements only; proofs are in Proofs/LexerTile.v.  Quantification is over every text. *)
 From Coq Require Import List NArith Bool String.
-From Verif Require Import Base.Text Gen.GenTokens Model.Lexer Proofs.LexerTile Proofs.GenObligations.
+From Verif Require Import Base.Text Gen.GenPipeline Gen.GenTokens Model.Lexer Proofs.LexerTile Proofs.GenObligations.
 Import ListNotations.
 Open Scope N_scope.
 
@@ -64,6 +64,12 @@ Qed.
 (* tie to token.rs: every regular expression there is one the model implements *)
 Theorem C05_gen_regexes_known : regexes_known = true.
 Proof. exact gen_regexes_known. Qed.
+
+(* tie to preprocessor.rs / lib.rs: no other step touches the text before it is tokenized *)
+Theorem C05_gen_pipeline :
+  Gen.GenPipeline.preprocess_steps = ["remove_oscat_comment"%string] /\
+  Gen.GenPipeline.tokenize_program_steps = ["preprocess"; "tokenize"; "insert_keyword_statement_terminators"]%string.
+Proof. exact gen_pipeline_steps. Qed.
 
 (* non-vacuity: a text with a comment, an OSCAT block holding a two-byte character, an error
    and END_IF without ';' -- the model yields 5 tokens after the comment on line 0 *)
